@@ -26,6 +26,8 @@ type worldSpec struct {
 }
 
 type world struct {
+	cfg      *lmd.VerifConfig
+	conns    []lmd.VerifConn
 	inst     *lmd.VerifInstance
 	backends map[string]*backend.Backend
 	dir      string
@@ -91,6 +93,8 @@ func newWorld(spec *worldSpec, scratch string) (*world, error) {
 		conns = append(conns, lmd.VerifConn{ID: wb.ID, Name: name, Source: resolve(wb.ID, src), Fallback: resolve(wb.ID, wb.Fallback), Flags: wb.Flags})
 	}
 	wld.inst = lmd.VerifNewWorld(&spec.Config, conns)
+	wld.cfg = &spec.Config
+	wld.conns = conns
 
 	return wld, nil
 }
@@ -218,6 +222,18 @@ func worldOp(out *bufio.Writer, inst **lmd.VerifInstance, op string, raw []byte,
 		res["ran"] = ran
 		res["err"] = errStr
 		res["state"] = curWorld.inst.VerifPeerState(line.Peer)
+	case "export_import":
+		if curWorld == nil {
+			return fail("no world")
+		}
+		fmt.Fprintf(os.Stderr, "@start %d\n", line.ID)
+		file := filepath.Join(curWorld.dir, "snapshot.tgz")
+		imported, err := lmd.VerifExportImport(curWorld.cfg, curWorld.conns, file)
+		if err != nil {
+			return fail(err.Error())
+		}
+		*inst = imported
+		res["ok"] = true
 	case "advance":
 		lmd.VerifClockAdvance(line.Seconds)
 		res["ok"] = true
@@ -269,6 +285,11 @@ func worldOp(out *bufio.Writer, inst **lmd.VerifInstance, op string, raw []byte,
 		res["err"] = curWorld.inst.VerifSendCommands(line.Peer, line.Commands)
 	default:
 		return false
+	}
+	if curWorld != nil && line.Peer != "" {
+		if b := curWorld.backends[line.Peer]; b != nil {
+			b.Mutate(func(_ map[string]*backend.Table) { res["backend_queries"] = b.Queries })
+		}
 	}
 	emit(out, res)
 
